@@ -92,15 +92,36 @@ def ffun(x: FLOAT[None]) -> FLOAT[None]:
 '''
 
 
+# module globals that are numpy arrays, used as an operand and as a tensor attribute; the array objects are modified in place afterwards
+NP_GLOBAL_SCRIPT = '''
+@script(default_opset=op)
+def npscript(x: FLOAT[2]) -> FLOAT[2]:
+    return NPBODY
+'''
+
+CUSTOM_DOMAINS = ["com.microsoft", "aa.custom", "zz.custom", "ai.onnx.contrib", "org.pytorch.aten", "m"]
+
+
 @st.composite
 def targets(draw, focus=None):
-    kinds = ["script", "script", "script_repeat", "script_nearmiss", "optimize", "optimize", "optimize_ir", "rewrite", "fold", "convert", "mutate_globals", "script_chain"]
+    kinds = ["script", "script", "script_repeat", "script_nearmiss", "optimize", "optimize", "optimize_ir", "rewrite", "fold", "convert", "mutate_globals", "script_chain",
+             "mutate_np_global", "rewrite_custom"]
     if focus is not None:
         kinds = ["optimize", "optimize_ir", "rewrite", "rewrite"]
     kind = draw(st.sampled_from(kinds))
     if kind == "mutate_globals":
-        return {"kind": "script_mutate_globals", "source": GLOBAL_SCRIPT, "name": "gscript", "opset": 18,
+        return {"kind": "script_mutate_globals", "source": GLOBAL_SCRIPT, "name": "gscript", "opset": 18, "eager_input": [1.0, -2.0],
                 "globals": {"GCONST": draw(st.sampled_from([0.5, 2.0])), "PERM": [0, 1]}, "mutate": {"GCONST": 7.0, "PERM": [1, 0]}, "fails": False}
+    if kind == "mutate_np_global":
+        body = draw(st.sampled_from(["x + WARR", "op.Mul(x, op.Constant(value=WARR))", "op.Add(x + WARR, op.Constant(value=VARR))", "op.Where(x > WARR, x, VARR)"]))
+        return {"kind": "script_mutate_globals", "source": NP_GLOBAL_SCRIPT.replace("NPBODY", body), "name": "npscript", "opset": 18, "eager_input": [1.0, -2.0],
+                "globals_np": {"WARR": [[draw(st.sampled_from([0.5, 2.0])), 3.0], "float32"], "VARR": [[-1.0, 4.0], "float32"]},
+                "mutate_inplace": {"WARR": [draw(st.sampled_from([0, 1])), 100.0], "VARR": [0, -50.0]}, "fails": False, "np_global": True}
+    if kind == "rewrite_custom":
+        k = draw(st.integers(2, 4))
+        doms = draw(st.lists(st.sampled_from(CUSTOM_DOMAINS), min_size=k, max_size=k, unique=True))
+        return {"kind": "rewrite_custom", "domains": [[d, draw(st.sampled_from([None, 1, 2, 3]))] for d in doms], "where": draw(st.sampled_from(["main", "if", "function"])),
+                "fails": False}
     if kind == "script_chain":
         src = (CHAIN_SCRIPT.replace("CCONST", draw(st.sampled_from(["1.0", "0.5"]))).replace("GBODY", draw(st.sampled_from(["hfun(x)", "hfun(hfun(x))", "op.Neg(hfun(x))"])))
                .replace("FBODY", draw(st.sampled_from(["gfun(x)", "gfun(x)", "gfun(gfun(x))", "hfun(gfun(x))", "op.Relu(gfun(x))"]))))
@@ -182,10 +203,16 @@ def run_shard(spec):
                 classes.append("failing_target")
             if t.get("chain"):
                 classes.append("target:script_chain(model imports != function imports)")
+            if t.get("np_global"):
+                classes.append("target:numpy_global_mutated_in_place")
+            if t["kind"] == "rewrite_custom":
+                classes.append(f"rewrite_custom:{len(t['domains'])}_new_domains:{t['where']}" + (":as_function" if t.get("as_function") else ""))
+            if "eager_after_mutation_equal" in ra:
+                classes.append("eager_called_before_and_after_mutation")
             if ra.get("d", "").startswith("EXC"):
                 classes.append("result:exception")
             col.case(key_of(t), nontrivial, classes, sample={k: (v if k != "model" else "<model>") for k, v in t.items()} if i == 0 else None)
-            for flag in ("repeat_equal", "function_ir_unchanged", "after_mutation_equal"):
+            for flag in ("repeat_equal", "function_ir_unchanged", "after_mutation_equal", "eager_after_mutation_equal"):
                 for which, r in (("A", ra), ("B", rbb)):
                     if r.get(flag) is False:
                         col.violation(f"in_process:{flag}", f"{flag} is False in process {which}", {"target": t, "flag": flag}, size=len(json.dumps(t)))
@@ -289,4 +316,9 @@ def _region_if_loop_outputs(case):
     return case.get("cause") == "hash_seed" and t.get("kind", "").startswith("script")
 
 
-REGIONS = {"script_set_iteration_order": _region_if_loop_outputs}
+def _region_eager_reads_globals(case):
+    """eager mode executes the Python body of the script, which reads module globals when it is CALLED (not when it was decorated)."""
+    return case.get("flag") == "eager_after_mutation_equal" and case.get("target", {}).get("kind") == "script_mutate_globals"
+
+
+REGIONS = {"script_set_iteration_order": _region_if_loop_outputs, "eager_reads_globals_at_call_time": _region_eager_reads_globals}
